@@ -305,7 +305,7 @@ func c01SameMultiset(got, want []c01Entry) bool {
 	return true
 }
 
-//verif:entry property=C01 tier=both bounds="options: one type, n<=N registrations each with arbitrary Once/Async/Sequential/context-aware flags and filter in {none, accept, reject, N>cut}; P consecutive publishes with symbolic values (one optionally with a cancelled context); async deliveries compared as a multiset after Wait" cover="two-publishes" N_quick=2 N_thorough=3 P_quick=2 P_thorough=2
+//verif:entry property=C01 tier=both bounds="options: one type, n<=N registrations each with arbitrary Once/Async/Sequential/context-aware flags and filter in {none, accept, reject, N>cut}; P consecutive publishes with symbolic values, each through Publish[T] or as an interface value; async deliveries compared as a multiset after Wait" cover="two-publishes" N_quick=2 N_thorough=3 P_quick=2 P_thorough=2
 func harnessC01Options() {
 	N, P := vParam("N", 2), vParam("P", 2)
 	c01Log, c01Re = nil, nil
@@ -329,7 +329,12 @@ func harnessC01Options() {
 	for p := 0; p < P; p++ {
 		v := vInt(-3, 3)
 		c01TakeLog()
-		c01Publish(bus, context.Background(), 0, v)
+		if vBool() {
+			c01Publish(bus, context.Background(), 0, v)
+		} else {
+			// the same event handed over as an interface value: same handlers, same filters
+			PublishContext[any](bus, context.Background(), evA{N: v})
+		}
 		want := m.publish(0, v, true)
 		bus.Wait()
 		got := c01TakeLog()
